@@ -260,10 +260,16 @@ def check_c20(pid, tier, t0, replay_key):
     findings += f3
     obl += o3
     st.update(st3)
+    for rule in (e5.rule_l7, e5.rule_l8):
+        f4, o4, st4 = rule(P, tables)
+        findings += f4
+        obl += o4
+        st.update(st4)
     common.check_floors(pid, {"q1_obligations": len(obl)}, tables)
     if tier == "thorough":
         st["selftest"] = run_selftest(pid)
     explanation = (
+        "Also decides two structural clauses of 'insignificant formatting does not change the output': (L7) the scalar accessors of the Glyphs plist value agree on accepting both spellings of a scalar (quoted / unquoted): numeric and boolean accessors have a String arm, string accessors would need numeric arms (as_str does not: listed known finding, reproduced); (L8) the raw Glyphs text is not rewritten by regular expressions before tokenizing (preprocess_unparsed_plist does: listed known finding, `unicode = (33, 161);` fails where `unicode = (33,161);` builds). " 
         "Decides one clause of C20 (Q1, single pipeline): in the whole-program call graph, from each public entry point (fontc::run for the CLI, "
         "fontc::generate_font for the library) there is a function through which every path to Workload::new, Workload::exec, FeContext::new_root "
         "and BeContext::new_root passes, the two entry points share it, and those four are not called from anywhere outside it. Formulated as a "
